@@ -191,8 +191,20 @@ def d5(ctx):
                 nv = res.env_out.get(u, {}).get(acc[0])
                 if ph is not None and nv is not None:
                     alts = [a for a, _ in phi_alternatives(ctx, ev, res, nv)] if tag(nv) == "phi" else [nv]
-                    grow = [a for a in alts if a != ph]
-                    ok_acc = len(grow) == 1 and term_eq(sub(grow[0], ph), inc)
+                    # what an iteration can add: the increments of the alternatives, a joined addend (`acc += step()` with step() = 0 on a retry) taken apart
+                    incs = []
+                    for a in alts:
+                        if a == ph:
+                            continue
+                        d_ = sub(a, ph)
+                        dl = as_lin(d_) if isinstance(d_, (Lin, tuple)) else None
+                        atoms = list(dl.m.items()) if dl is not None else []
+                        if dl is not None and dl.c == 0 and len(atoms) == 1 and atoms[0][1] == 1 and tag(atoms[0][0]) == "phi" and len(atoms[0][0]) > 3:
+                            incs.extend(atoms[0][0][3])
+                        else:
+                            incs.append(d_)
+                    grow = [d_ for d_ in incs if not (is_const(d_) and as_lin(d_).c == 0)]
+                    ok_acc = bool(grow) and all(term_eq(d_, inc) for d_ in grow)
         yield Ob(key_of("C20-D5", b.path, "accumulator-equals-increment"), ok_acc, "accumulator += %s, the term added to the header" % short(inc, 60), ctx.loc(ws[0]))
         ok_sz = tag(inc) == "hi" or (tag(inc) == "field" and inc[2] == "data_size")
         yield Ob(key_of("C20-D5", b.path, "increment-is-data-size"), ok_sz, "the increment is the popped segment's data size (%s)" % short(inc, 60), ctx.loc(ws[0]))
